@@ -832,6 +832,10 @@ func genAll(r *rand.Rand, tier string) []core.Case {
 		}
 	}
 
+	// 3b. gap closing round 3: streams that reach (and are refused by) the decoders' own readers, UCS-2
+	//     strings that end in the middle of a surrogate pair / code unit (gap3.go)
+	cs = append(cs, gap3Cases(r, tier)...)
+
 	// 4. NVAR stores: stand-alone under each polarity, and inside a volume
 	for i := 0; i < pick(6, 30); i++ {
 		st := nvarStore(r, 0x100+r.Intn(0x300), i%2 == 1)
